@@ -1,0 +1,42 @@
+//go:build verif
+
+// Contracts for package tree, checked by /verif (govc). This file contains
+// comments only; it is compiled only with -tags verif and adds no code.
+// Syntax: see /verif/DESIGN.md Appendix A. Functions are keyed by their go/ssa
+// name, loops by ordinal (order of loop heads in the function).
+
+package tree
+
+// ---------------------------------------------------------------------------
+// Quartets (property C04): equality / hash agreement
+// ---------------------------------------------------------------------------
+
+//@ define qmin(a int, b int) int = a <= b ? a : b
+//@ define qmax(a int, b int) int = a <= b ? b : a
+//@ define qs1(q *Quartet) int = qmin(qmin(q.T1, q.T2), qmin(q.T3, q.T4))
+//@ define qs4(q *Quartet) int = qmax(qmax(q.T1, q.T2), qmax(q.T3, q.T4))
+//@ define qs2(q *Quartet) int = qmin(qmax(qmin(q.T1, q.T2), qmin(q.T3, q.T4)), qmin(qmax(q.T1, q.T2), qmax(q.T3, q.T4)))
+//@ define qs3(q *Quartet) int = qmax(qmax(qmin(q.T1, q.T2), qmin(q.T3, q.T4)), qmin(qmax(q.T1, q.T2), qmax(q.T3, q.T4)))
+//@ define qsametaxa(a *Quartet, b *Quartet) bool = qs1(a) == qs1(b) && qs2(a) == qs2(b) && qs3(a) == qs3(b) && qs4(a) == qs4(b)
+//@ define qhash(q *Quartet) int = 31*(31*(31*(31+qs1(q))+qs2(q))+qs3(q)) + qs4(q)
+//@ define qpair(a int, b int, c int, d int) bool = (a == c && b == d) || (a == d && b == c)
+//@ define qsametopo(a *Quartet, b *Quartet) bool = (qpair(a.T1, a.T2, b.T1, b.T2) && qpair(a.T3, a.T4, b.T3, b.T4)) || (qpair(a.T1, a.T2, b.T3, b.T4) && qpair(a.T3, a.T4, b.T1, b.T2))
+//@ define qdistinct(q *Quartet) bool = q.T1 != q.T2 && q.T1 != q.T3 && q.T1 != q.T4 && q.T2 != q.T3 && q.T2 != q.T4 && q.T3 != q.T4
+
+//@ func (*tree.Quartet).Compare
+//@   requires q != nil && q2 != nil
+//@   ensures [range] result == 0 || result == 1 || result == 2
+//@   ensures [equals_iff_same_topology] result == 0 <==> qsametopo(q, q2)
+//@   ensures [notdiff_implies_same_taxa] result != 2 ==> qsametaxa(q, q2)
+//@   ensures [same_taxa_implies_notdiff] qdistinct(q) && qdistinct(q2) && qsametaxa(q, q2) ==> result != 2
+//@   ensures [symmetric_topo] qsametopo(q, q2) == qsametopo(q2, q)
+
+//@ func (*tree.Quartet).HashCode
+//@   requires q != nil
+//@   ensures [hash_of_sorted_taxa] result == qhash(q)
+
+//@ func (*tree.Quartet).HashEquals
+//@   requires q != nil && itag(h) == typetag("*Quartet") && iref(h) != 0
+//@   ensures [eq_is_same_taxa_class] result ==> qsametaxa(q, cast(iref(h), "*Quartet"))
+//@   ensures [eq_implies_hash] result ==> qhash(q) == qhash(cast(iref(h), "*Quartet"))
+//@   ensures [eq_complete] qdistinct(q) && qdistinct(cast(iref(h), "*Quartet")) && qsametaxa(q, cast(iref(h), "*Quartet")) ==> result
